@@ -47,7 +47,8 @@ def oQR {p : Nat} : Outcome (List (Fp p) × List (Fp p)) → String
 section spec
 variable {p : Nat}
 
-def cD (l : List (Fp p)) (i : Nat) : Fp p := l.getD i 0
+/-- coefficient function of a stored dense vector (an `Array`, so that look-ups are O(1)) -/
+def cD (l : Array (Fp p)) (i : Nat) : Fp p := l.getD i 0
 /-- a term list denotes the sum of its monomials -/
 def cS (s : List (Nat × Fp p)) (i : Nat) : Fp p :=
   s.foldl (fun acc t => if t.1 = i then acc + t.2 else acc) 0
@@ -78,7 +79,8 @@ def judgeD (impl : String) (n : Nat) (want : Nat → Fp p) : String :=
   else match pD p impl with
     | none => "bad:unparseable"
     | some l =>
-      if agree (max n l.length) (cD l) want then
+      let fl := cD l.toArray
+      if agree (max n l.length) fl want then
         (if canonD l then "ok" else "bad:noncanonical")
       else "bad:want=" ++ shD (wantD n want)
 
@@ -99,9 +101,11 @@ def judgeQR (impl : String) (na : Nat) (fa : Nat → Fp p) (nb : Nat) (fb : Nat 
       match pD p qs, pD p rs with
       | some q, some r =>
         let n := max na (max (q.length + nb) r.length)
-        if !agree n fa (fun k => conv (cD q) fb k + cD r k) then "bad:a≠q·b+r"
+        let fq := cD q.toArray
+        let fr := cD r.toArray
+        if !agree n fa (fun k => conv fq fb k + fr k) then "bad:a≠q·b+r"
         else if !(canonD q && canonD r) then "bad:noncanonical"
-        else match degBelow nb fb, degBelow r.length (cD r) with
+        else match degBelow nb fb, degBelow r.length fr with
           | some db, some dr => if dr < db then "ok" else "bad:deg-r≥deg-b"
           | some _, none => "ok"
           | none, _ => "bad:zero-divisor"
@@ -141,8 +145,8 @@ def runP (p : Nat) (op : String) (args : List String) (impl : String) : Option (
   match op, args with
   /- ---------- dense: constructor, queries ---------- -/
   | "dfrom", [v] | "dfroms", [v] => do
-    let v ← pD p v
-    some (shD (fromCoefficientsVec v), judgeD impl v.length (cD v))
+    let v ← pD p v; let fv := cD v.toArray
+    some (shD (fromCoefficientsVec v), judgeD impl v.length fv)
   | "ddeg", [a] => do
     let a ← pD p a
     let m := match degree a with
@@ -150,99 +154,100 @@ def runP (p : Nat) (op : String) (args : List String) (impl : String) : Option (
       | .panic => "panic"
     some (m, pre (canonD a) (vs impl (hex (a.length - 1))))
   | "dzero", [a] => do
-    let a ← pD p a
-    some (boolStr (Poly.isZero a), vs impl (boolStr (allZero a.length (cD a))))
+    let a ← pD p a; let fa := cD a.toArray
+    some (boolStr (Poly.isZero a), vs impl (boolStr (allZero a.length fa)))
   | "deval", [a, x] => do
-    let a ← pD p a; let x ← pEl p x
-    some (shEl (evaluate a x), vs impl (shEl (evalFn a.length (cD a) x)))
+    let a ← pD p a; let fa := cD a.toArray; let x ← pEl p x
+    some (shEl (evaluate a x), vs impl (shEl (evalFn a.length fa x)))
   /- ---------- dense ⊕ dense ---------- -/
   | "dadd", [a, b] => do
-    let a ← pD p a; let b ← pD p b
+    let a ← pD p a; let fa := cD a.toArray; let b ← pD p b; let fb := cD b.toArray
     some (withTag (oD (addDD a b)) (tag2 (Poly.isZero a) (Poly.isZero b) a.length b.length),
-      pre (canonD a && canonD b) (judgeD impl (max a.length b.length) (fun i => cD a i + cD b i)))
+      pre (canonD a && canonD b) (judgeD impl (max a.length b.length) (fun i => fa i + fb i)))
   | "daddv", [a, b] => do
-    let a ← pD p a; let b ← pD p b
+    let a ← pD p a; let fa := cD a.toArray; let b ← pD p b; let fb := cD b.toArray
     some (oD (addDD a b),
-      pre (canonD a && canonD b) (judgeD impl (max a.length b.length) (fun i => cD a i + cD b i)))
+      pre (canonD a && canonD b) (judgeD impl (max a.length b.length) (fun i => fa i + fb i)))
   | "daddas", [a, b] => do
-    let a ← pD p a; let b ← pD p b
+    let a ← pD p a; let fa := cD a.toArray; let b ← pD p b; let fb := cD b.toArray
     some (withTag (shD (addAssignDD a b)) (tag2 (Poly.isZero b) (Poly.isZero a) b.length a.length),
-      pre (canonD a && canonD b) (judgeD impl (max a.length b.length) (fun i => cD a i + cD b i)))
+      pre (canonD a && canonD b) (judgeD impl (max a.length b.length) (fun i => fa i + fb i)))
   | "daddsc", [a, f, b] => do
-    let a ← pD p a; let f ← pEl p f; let b ← pD p b
+    let a ← pD p a; let fa := cD a.toArray; let f ← pEl p f; let b ← pD p b; let fb := cD b.toArray
     some (withTag (oD (addAssignScaledDD a f b)) (tag2 (Poly.isZero b) (Poly.isZero a) b.length a.length ++ (if f == 0 then "f0" else "")),
-      pre (canonD a && canonD b) (judgeD impl (max a.length b.length) (fun i => cD a i + f * cD b i)))
+      pre (canonD a && canonD b) (judgeD impl (max a.length b.length) (fun i => fa i + f * fb i)))
   | "dsub", [a, b] => do
-    let a ← pD p a; let b ← pD p b
+    let a ← pD p a; let fa := cD a.toArray; let b ← pD p b; let fb := cD b.toArray
     some (withTag (oD (subDD a b)) (tag2 (Poly.isZero a) (Poly.isZero b) a.length b.length),
-      pre (canonD a && canonD b) (judgeD impl (max a.length b.length) (fun i => cD a i - cD b i)))
+      pre (canonD a && canonD b) (judgeD impl (max a.length b.length) (fun i => fa i - fb i)))
   | "dsubv", [a, b] => do
-    let a ← pD p a; let b ← pD p b
+    let a ← pD p a; let fa := cD a.toArray; let b ← pD p b; let fb := cD b.toArray
     some (oD (subDD a b),
-      pre (canonD a && canonD b) (judgeD impl (max a.length b.length) (fun i => cD a i - cD b i)))
+      pre (canonD a && canonD b) (judgeD impl (max a.length b.length) (fun i => fa i - fb i)))
   | "dsubas", [a, b] => do
-    let a ← pD p a; let b ← pD p b
+    let a ← pD p a; let fa := cD a.toArray; let b ← pD p b; let fb := cD b.toArray
     some (withTag (oD (subAssignDD a b)) (tag2 (Poly.isZero a) (Poly.isZero b) a.length b.length),
-      pre (canonD a && canonD b) (judgeD impl (max a.length b.length) (fun i => cD a i - cD b i)))
+      pre (canonD a && canonD b) (judgeD impl (max a.length b.length) (fun i => fa i - fb i)))
   | "dneg", [a] => do
-    let a ← pD p a
-    some (shD (neg a), pre (canonD a) (judgeD impl a.length (fun i => -(cD a i))))
+    let a ← pD p a; let fa := cD a.toArray
+    some (shD (neg a), pre (canonD a) (judgeD impl a.length (fun i => -(fa i))))
   | "dscale", [a, f] => do
-    let a ← pD p a; let f ← pEl p f
+    let a ← pD p a; let fa := cD a.toArray; let f ← pEl p f
     some (withTag (shD (scale a f)) (if Poly.isZero a then "zs" else if f == 0 then "f0" else "nz"),
-      pre (canonD a) (judgeD impl a.length (fun i => cD a i * f)))
+      pre (canonD a) (judgeD impl a.length (fun i => fa i * f)))
   | "dscalev", [a, f] => do
-    let a ← pD p a; let f ← pEl p f
-    some (shD (scale a f), pre (canonD a) (judgeD impl a.length (fun i => cD a i * f)))
+    let a ← pD p a; let fa := cD a.toArray; let f ← pEl p f
+    some (shD (scale a f), pre (canonD a) (judgeD impl a.length (fun i => fa i * f)))
   | "dnmul", [a, b] => do
-    let a ← pD p a; let b ← pD p b
+    let a ← pD p a; let fa := cD a.toArray; let b ← pD p b; let fb := cD b.toArray
     some (withTag (oD (naiveMul a b)) (tag2 (Poly.isZero a) (Poly.isZero b) a.length b.length),
-      pre (canonD a && canonD b) (judgeD impl (a.length + b.length) (conv (cD a) (cD b))))
+      pre (canonD a && canonD b) (judgeD impl (a.length + b.length) (conv fa fb)))
   | "dmul", [a, b] => do
-    let a ← pD p a; let b ← pD p b
+    let a ← pD p a; let fa := cD a.toArray; let b ← pD p b; let fb := cD b.toArray
     let noDom := !(Poly.isZero a || Poly.isZero b) && !domainExists ta (a.length + b.length - 1)
     some (withTag (oD (mulDD ta a b)) (if noDom then "nodomain" else tag2 (Poly.isZero a) (Poly.isZero b) a.length b.length),
       pre (canonD a && canonD b)
         (if noDom && impl == "panic" then "note:field-has-no-domain-of-that-size"
-         else judgeD impl (a.length + b.length) (conv (cD a) (cD b))))
+         else judgeD impl (a.length + b.length) (conv fa fb)))
   /- ---------- division ---------- -/
   | "ddiv", [a, b] => do
-    let a ← pD p a; let b ← pD p b
+    let a ← pD p a; let fa := cD a.toArray; let b ← pD p b; let fb := cD b.toArray
     let tg := if Poly.isZero a then "za" else if Poly.isZero b then "zb" else if a.length < b.length then "lt" else "loop"
     some (withTag (oQR (divideWithQAndR (.d a) (.d b))) tg,
       pre (canonD a && canonD b)
-        (if allZero b.length (cD b) then (if impl == "panic" || Poly.isZero a then "note:division-by-zero" else "bad:division-by-zero-returned")
-         else judgeQR impl a.length (cD a) b.length (cD b)))
+        (if allZero b.length fb then (if impl == "panic" || Poly.isZero a then "note:division-by-zero" else "bad:division-by-zero-returned")
+         else judgeQR impl a.length fa b.length fb))
   | "ddivq", [a, b] => do
-    let a ← pD p a; let b ← pD p b
+    let a ← pD p a; let fa := cD a.toArray; let b ← pD p b; let fb := cD b.toArray
     -- `&a / &b`: only the quotient is returned; the remainder `a − q·b` must have degree < deg b
     let v :=
-      if allZero b.length (cD b) then (if impl == "panic" || Poly.isZero a then "note:division-by-zero" else "bad:division-by-zero-returned")
+      if allZero b.length fb then (if impl == "panic" || Poly.isZero a then "note:division-by-zero" else "bad:division-by-zero-returned")
       else if impl == "panic" then "bad:panic"
       else match pD p impl with
         | none => "bad:unparseable"
         | some q =>
           let n := max a.length (q.length + b.length)
-          let rem := fun k => cD a k - conv (cD q) (cD b) k
+          let fq := cD q.toArray
+          let rem := fun k => fa k - conv fq fb k
           if !canonD q then "bad:noncanonical"
-          else match degBelow b.length (cD b), degBelow n rem with
+          else match degBelow b.length fb, degBelow n rem with
             | some db, some dr => if dr < db then "ok" else "bad:deg(a−q·b)≥deg-b"
             | _, _ => "ok"
     some (oD (divDD a b), pre (canonD a && canonD b) v)
   | "dsdiv", [a, s] => do
-    let a ← pD p a; let s ← pS p s
+    let a ← pD p a; let fa := cD a.toArray; let s ← pS p s
     let tg := if Poly.isZero a then "za" else if sIsZero s then "zb" else "nz"
     some (withTag (oQR (divideWithQAndR (.d a) (.s s))) tg,
       pre (canonD a && canonS s)
         (if sIsZero s then (if impl == "panic" || Poly.isZero a then "note:division-by-zero" else "bad:division-by-zero-returned")
-         else judgeQR impl a.length (cD a) (boundS s) (cS s)))
+         else judgeQR impl a.length fa (boundS s) (cS s)))
   | "sddiv", [s, b] => do
-    let s ← pS p s; let b ← pD p b
+    let s ← pS p s; let b ← pD p b; let fb := cD b.toArray
     let tg := if sIsZero s then "za" else if Poly.isZero b then "zb" else "nz"
     some (withTag (oQR (divideWithQAndR (.s s) (.d b))) tg,
       pre (canonS s && canonD b)
         (if Poly.isZero b then (if impl == "panic" || sIsZero s then "note:division-by-zero" else "bad:division-by-zero-returned")
-         else judgeQR impl (boundS s) (cS s) b.length (cD b)))
+         else judgeQR impl (boundS s) (cS s) b.length fb))
   | "ssdiv", [s, t] => do
     let s ← pS p s; let t ← pS p t
     let tg := if sIsZero s then "za" else if sIsZero t then "zb" else "nz"
@@ -252,37 +257,37 @@ def runP (p : Nat) (op : String) (args : List String) (impl : String) : Option (
          else judgeQR impl (boundS s) (cS s) (boundS t) (cS t)))
   /- ---------- vanishing polynomial of a domain ---------- -/
   | "dmulvan", [a, n, g, h] => do
-    let a ← pD p a; let D ← pDom p n g h
+    let a ← pD p a; let fa := cD a.toArray; let D ← pDom p n g h
     some (withTag (shD (mulByVanishingPoly a D.size)) (if D.offset == 1 then "subgroup" else "coset"),
-      pre (canonD a) (judgeD impl (a.length + D.size + 1) (conv (cD a) (vanFn D))))
+      pre (canonD a) (judgeD impl (a.length + D.size + 1) (conv fa (vanFn D))))
   | "ddivvan", [a, n, g, h] => do
-    let a ← pD p a; let D ← pDom p n g h
+    let a ← pD p a; let fa := cD a.toArray; let D ← pDom p n g h
     some (withTag (oQR (divideByVanishingPoly a D.size))
         ((if a.length < D.size then "short" else if a.length ≤ 2 * D.size then "one" else "many") ++ (if D.offset == 1 then "-subgroup" else "-coset")),
-      pre (canonD a) (judgeQR impl a.length (cD a) (D.size + 1) (vanFn D)))
+      pre (canonD a) (judgeQR impl a.length fa (D.size + 1) (vanFn D)))
   /- ---------- dense ⊕ sparse ---------- -/
   | "dsadd", [a, s] => do
-    let a ← pD p a; let s ← pS p s
+    let a ← pD p a; let fa := cD a.toArray; let s ← pS p s
     some (withTag (oD (addDS a s)) (tag2 (Poly.isZero a) (sIsZero s) a.length (boundS s)),
-      pre (canonD a && canonS s) (judgeD impl (max a.length (boundS s)) (fun i => cD a i + cS s i)))
+      pre (canonD a && canonS s) (judgeD impl (max a.length (boundS s)) (fun i => fa i + cS s i)))
   | "dsaddas", [a, s] => do
-    let a ← pD p a; let s ← pS p s
+    let a ← pD p a; let fa := cD a.toArray; let s ← pS p s
     some (withTag (oD (addAssignDS a s)) (tag2 (sIsZero s) (Poly.isZero a) (boundS s) a.length),
-      pre (canonD a && canonS s) (judgeD impl (max a.length (boundS s)) (fun i => cD a i + cS s i)))
+      pre (canonD a && canonS s) (judgeD impl (max a.length (boundS s)) (fun i => fa i + cS s i)))
   | "dssub", [a, s] => do
-    let a ← pD p a; let s ← pS p s
+    let a ← pD p a; let fa := cD a.toArray; let s ← pS p s
     some (withTag (oD (subDS a s)) (tag2 (Poly.isZero a) (sIsZero s) a.length (boundS s)),
-      pre (canonD a && canonS s) (judgeD impl (max a.length (boundS s)) (fun i => cD a i - cS s i)))
+      pre (canonD a && canonS s) (judgeD impl (max a.length (boundS s)) (fun i => fa i - cS s i)))
   | "dssubas", [a, s] => do
-    let a ← pD p a; let s ← pS p s
+    let a ← pD p a; let fa := cD a.toArray; let s ← pS p s
     some (withTag (oD (subAssignDS a s)) (tag2 (Poly.isZero a) (sIsZero s) a.length (boundS s)),
-      pre (canonD a && canonS s) (judgeD impl (max a.length (boundS s)) (fun i => cD a i - cS s i)))
+      pre (canonD a && canonS s) (judgeD impl (max a.length (boundS s)) (fun i => fa i - cS s i)))
   | "s2d", [s] => do
     let s ← pS p s
     some (oD (sparseToDense s), pre (canonS s) (judgeD impl (boundS s) (cS s)))
   | "d2s", [a] => do
-    let a ← pD p a
-    some (oS (denseToSparse a), pre (canonD a) (judgeS impl a.length (cD a)))
+    let a ← pD p a; let fa := cD a.toArray
+    some (oS (denseToSparse a), pre (canonD a) (judgeS impl a.length fa))
   /- ---------- sparse ---------- -/
   | "sfrom", [v] | "sfroms", [v] => do
     let v ← pS p v
@@ -334,21 +339,21 @@ def runP (p : Nat) (op : String) (args : List String) (impl : String) : Option (
       pre (canonS s && canonS t) (judgeS impl (boundS s + boundS t) (conv (cS s) (cS t))))
   /- ---------- evaluation over a domain / coset, interpolation ---------- -/
   | "devaldom", [a, n, g, h] => do
-    let a ← pD p a; let D ← pDom p n g h
+    let a ← pD p a; let fa := cD a.toArray; let D ← pDom p n g h
     some (withTag (oD (evaluateOverDomainRef D a)) (if a.length > D.size then "fold" else "fit"),
-      pre (canonD a) (vs impl (shD ((specElements D).map (evalFn a.length (cD a))))))
+      pre (canonD a) (vs impl (shD ((specElements D).map (evalFn a.length fa)))))
   | "devaldomo", [a, n, g, h] => do
-    let a ← pD p a; let D ← pDom p n g h
+    let a ← pD p a; let fa := cD a.toArray; let D ← pDom p n g h
     some (withTag (oD (evaluateOverDomainOwned D a)) (if a.length > D.size then "fold" else "fit"),
-      pre (canonD a) (vs impl (shD ((specElements D).map (evalFn a.length (cD a))))))
+      pre (canonD a) (vs impl (shD ((specElements D).map (evalFn a.length fa)))))
   | "sevaldom", [s, n, g, h] | "sevaldomo", [s, n, g, h] => do
     let s ← pS p s; let D ← pDom p n g h
     some (oD (sEvaluateOverDomain D s),
       pre (canonS s) (vs impl (shD ((specElements D).map (evalFn (boundS s) (cS s))))))
   | "interp", [ev, n, g, h] | "interpr", [ev, n, g, h] => do
-    let ev ← pD p ev; let D ← pDom p n g h
+    let ev ← pD p ev; let fev := cD ev.toArray; let D ← pDom p n g h
     -- the interpolant: canonical, degree < size, and takes the given values on the domain
-    let evs := (List.range D.size).map (cD ev)
+    let evs := (List.range D.size).map fev
     let v :=
       if impl == "panic" then "bad:panic"
       else match pD p impl with
@@ -356,11 +361,11 @@ def runP (p : Nat) (op : String) (args : List String) (impl : String) : Option (
         | some r =>
           if !canonD r then "bad:noncanonical"
           else if r.length > D.size then "bad:degree≥size"
-          else if (specElements D).map (evalFn r.length (cD r)) == evs then "ok"
+          else if (specElements D).map (evalFn r.length (cD r.toArray)) == evs then "ok"
           else "bad:values-differ"
     some (shD (interpolate D ev), v)
   | "dround", [a, n, g, h] => do
-    let a ← pD p a; let D ← pDom p n g h
+    let a ← pD p a; let fa := cD a.toArray; let D ← pDom p n g h
     -- evaluate over the domain and interpolate back: a mod (X^n − h^n)
     let m := match evaluateOverDomainOwned D a with
       | .ok e => shD (interpolate D e)
@@ -372,7 +377,7 @@ def runP (p : Nat) (op : String) (args : List String) (impl : String) : Option (
         | some r =>
           if !canonD r then "bad:noncanonical"
           else if r.length > D.size then "bad:degree≥size"
-          else if (specElements D).map (evalFn r.length (cD r)) == (specElements D).map (evalFn a.length (cD a)) then "ok"
+          else if (specElements D).map (evalFn r.length (cD r.toArray)) == (specElements D).map (evalFn a.length fa) then "ok"
           else "bad:values-differ"
     some (m, pre (canonD a) v)
   | _, _ => none
